@@ -793,7 +793,9 @@ def get_structure_factor(
 
     # do the n-dimensional Fourier transform and calculate the structure factor
     f1 = np_fftn(scalar_field.data, norm="ortho").flat[1:]
-    flat_data = scalar_field.data.flat
+    # (the norm is calculated with floats, since it overflows for integer images otherwise)
+    data = scalar_field.data
+    flat_data = np.asarray(data, dtype=np.common_type(data)).ravel()
     sf = np.abs(f1) ** 2 / np.dot(flat_data, flat_data)
 
     # an alternative calculation of the structure factor is
